@@ -86,6 +86,18 @@ CLAIMS = {
         'no reordering of files/fields, CLI forwards them in order; widths agree with client.c and the documented 8-byte / 4-byte ints.',
    note='The payload bytes delivered by asdf/blosc are not modelled.',
    design_ref='DESIGN.md section 4, C20'),
+ 'C01': dict(
+   technique='static analysis: provenance of the write-offset cumulative sums, key agreement of the kernel-call table (f-string keys partially evaluated for A/B x cleaned), zipper typestate rule on both kernels, guarded set comparison of removed/added columns, bounds prover on the zipper kernels',
+   text='Decides the index-arithmetic skeleton: write offsets are one (initial,final) cumulative sum per subsample of npout[+npout_merge] with the running total carried A->B; cleaned-away halos are zeroed first; the kernel call pairs read offsets/lengths with the summed columns and hands each file its halo rows (+1 offset); '
+        'both zipper kernels slice every output to the halo write range, decode originals, advance every output by the original length, then decode the merged particles; index columns are replaced by new[:-1] / diff(new); table length is the last offset.',
+   note='Not decided: that the stored npstart/npout address the right records (file contents), decoding values (C04), astropy slicing semantics. Zipper bounds are relative to the call-site contract (lengths of the sliced columns) listed as ASSUMED.',
+   design_ref='DESIGN.md section 4, C01'),
+ 'C03': dict(
+   technique='static analysis: reaching-definition style agreement rules on the per-file compaction bookkeeping, order-preservation (no reordering constructs, position pairing), must-raise rules, guard equivalence of the two N_total->N renames',
+   text='Decides the bookkeeping that makes concatenation/filtering commute with loading: slot [N_written:N_written+len], halos[:n]=halos[mask] with n=mask.sum(), the same n advances N_written and is recorded per file, truncation to N_written, post-filter counts select each file\'s halos for its particle file; '
+        'file order preserved end to end; duplicates and mixed catalogs raise; the filter-path rename and the final rename have the same guard (cleaning files loaded and not passthrough); empty results are safe (cumsum).',
+   note='Not decided: equality of row values with masking an unfiltered load (follows from the bookkeeping plus astropy semantics), ndarray.resize.',
+   design_ref='DESIGN.md section 4, C03'),
 }
 _NB = 'rule family not built yet in this session (claimed only once its checker exists; see DESIGN.md section 4)'
 NOT_APPLICABLE = {f'C{n:02d}': _NB for n in range(1, 21) if f'C{n:02d}' not in CLAIMS}
